@@ -2,6 +2,7 @@ package fragswarm
 
 import (
 	"context"
+	"time"
 
 	"go.brendoncarroll.net/p2p"
 	"go.brendoncarroll.net/p2p/s/swarmutil"
@@ -52,6 +53,74 @@ func VH_C12_fragswarmClose() bool {
 	vAssert(err == nil && closes == 1, "inner-swarm-not-closed-exactly-once")
 	vAssert(r1 != nil, "blocked-receive-returned-nil-after-close")
 	vAssert(s.Receive(context.Background(), func(m p2p.Message[vAddr]) {}) != nil, "receive-after-close-returned-nil")
+	vCover("closed")
+	return true
+}
+
+// vInnerQ behaves like the in-memory swarm: Close waits for a Receive callback that is in flight.
+type vInnerQ struct {
+	vInner
+	closed   chan struct{}
+	inbox    chan p2p.Message[vAddr]
+	inflight *int
+	idle     chan struct{}
+}
+
+func (s vInnerQ) Receive(ctx context.Context, fn func(p2p.Message[vAddr])) error {
+	select {
+	case <-s.closed:
+		return p2p.ErrClosed
+	case <-ctx.Done():
+		return ctx.Err()
+	case m := <-s.inbox:
+		*s.inflight++
+		fn(m)
+		*s.inflight--
+		select {
+		case s.idle <- struct{}{}:
+		default:
+		}
+		return nil
+	}
+}
+
+func (s vInnerQ) Close() error {
+	close(s.closed)
+	if *s.inflight > 0 {
+		<-s.idle // like swarmutil.Queue.Close: wait for the buffer held by the running callback
+	}
+	return nil
+}
+
+type vCtxF struct {
+	done chan struct{}
+	err  *error
+}
+
+func (c vCtxF) Deadline() (time.Time, bool) { return time.Time{}, false }
+func (c vCtxF) Done() <-chan struct{}       { return c.done }
+func (c vCtxF) Err() error                  { return *c.err }
+func (c vCtxF) Value(key any) any           { return nil }
+
+// verif: replay=schedule unwind=8 preempt=2/4 cover=closed bounds="fragswarm Close while its receive worker holds a message nobody has received yet (parked in the hub), over an inner swarm whose Close waits for in-flight callbacks: Close returns and later Receive fails; at most 2 (quick) / 4 (thorough) preemptions"
+func VH_C12_fragswarmCloseWithParkedDelivery() bool {
+	var sent []vSent
+	inflight := 0
+	inner := vInnerQ{vInner: vInner{mtu: 32, sent: &sent}, closed: make(chan struct{}), inbox: make(chan p2p.Message[vAddr], 1), inflight: &inflight, idle: make(chan struct{}, 1)}
+	ctx := vCtxF{done: make(chan struct{}), err: new(error)}
+	cancel := func() {
+		if *ctx.err == nil {
+			*ctx.err = p2p.ErrClosed
+			close(ctx.done)
+		}
+	}
+	s := &swarm[vAddr]{Swarm: inner, mtu: 64, cf: cancel, aggs: make(map[aggKey]*aggregator), msgIDs: make(map[string]uint32), tells: swarmutil.NewTellHub[vAddr]()}
+	inner.inbox <- p2p.Message[vAddr]{Src: 1, Dst: 0, Payload: []byte{0, 0, 1, 42}} // id 0, part 0 of 1
+	go s.recvLoops(ctx, 1)
+	vSettle()
+	err := s.Close() // must not wait forever for the parked delivery
+	vAssert(err == nil, "close-failed")
+	vAssert(s.Receive(vCtxF{done: ctx.done, err: ctx.err}, func(m p2p.Message[vAddr]) {}) != nil, "receive-after-close-returned-nil")
 	vCover("closed")
 	return true
 }
